@@ -4,7 +4,7 @@
 copied to /verif/seeded/<id>/ (patch.diff, demo.py, meta.json)."""
 import json, os, shutil, subprocess, sys
 SRC = sys.argv[1] if len(sys.argv) > 1 else "/tmp/mut/out"
-WT = "/tmp/mut2/val"
+WT = "/tmp/mut3/val"
 def sh(cmd, cwd=WT, timeout=900):
     return subprocess.run(cmd, shell=True, cwd=cwd, capture_output=True, text=True, timeout=timeout)
 if not os.path.isdir(WT):
